@@ -25,6 +25,9 @@
 const char *verif_harness = "seqcont_seq";
 using namespace verif;
 // the hook's public "am I linked" flag, while the hook has one (a template so that the member is looked up only if it exists)
+// the hook's public back link, while the hook has one (the backward walk is skipped otherwise: the list offers no other way to go backwards)
+template<typename N> bool has_prev_link() { return requires(N *p) { p->hook.previous; }; }
+template<typename N> N *prev_of(N *p) { if constexpr(requires { p->hook.previous; }) return (N *)p->hook.previous; else return nullptr; }
 template<typename N> bool in_list_or(N &n, bool otherwise) { if constexpr(requires { n.hook.in_list; }) return n.hook.in_list; else return otherwise; }
 
 void verif_case_reset() { reg().reset(); }
@@ -440,7 +443,8 @@ void run_intrusive(Ctx &c) {
 			  VCHECK(c, "C13", k == ref[s].size(), "intrusive_list[%d]: the walk with it++ yields %zu nodes, reference %zu", s, k, ref[s].size()); }
 			// backward walk over the public previous links
 			n = ref[s].size();
-			for(INode *p = L[s]->back(); p; p = p->hook.previous) {
+			if(!has_prev_link<INode>()) { n = 0; c.tag("no-back-links"); }
+			else for(INode *p = L[s]->back(); p; p = prev_of(p)) {
 				VCHECK(c, "C13", n > 0, "intrusive_list[%d]: backward walk yields more than %zu nodes", s, ref[s].size());
 				--n;
 				VCHECK(c, "C13", p == &nodes[ref[s][n]], "intrusive_list[%d]: backward position %zu is node %d, reference %d", s, n, p->id, ref[s][n]);
@@ -537,7 +541,8 @@ void run_intrusive_owned(Ctx &c) {
 			if(!ref[s].empty()) {
 				VCHECK(c, "C13", L[s]->front() == &nodes[ref[s].front()] && L[s]->back() == &nodes[ref[s].back()], "owned list %d: front()/back() are not the reference's", s);
 				size_t k = ref[s].size();
-				for(ONode *p = L[s]->back(); p; p = p->hook.previous) { VCHECK(c, "C13", k > 0 && p->id == ref[s][k - 1], "owned list %d: the back links reach node %d at reverse position %zu", s, p->id, ref[s].size() - k); k--; }
+				if(!has_prev_link<ONode>()) k = 0;
+				else for(ONode *p = L[s]->back(); p; p = prev_of(p)) { VCHECK(c, "C13", k > 0 && p->id == ref[s][k - 1], "owned list %d: the back links reach node %d at reverse position %zu", s, p->id, ref[s].size() - k); k--; }
 				VCHECK(c, "C13", k == 0, "owned list %d: the back links reach %zu of %zu nodes", s, ref[s].size() - k, ref[s].size());
 			}
 		}
